@@ -27,6 +27,7 @@
    not, see <http://www.gnu.org/licenses/>.  */
 
 #include <sstream>
+#include <functional>
 #include <iostream>
 #include <vector>
 #include <algorithm>
@@ -178,33 +179,29 @@ constant::operator< (constant that) const
   // We don't want to evaluate as equal two constants from different
   // domains just because they happen to have the same value.
 
-  auto const *dom1 = dom ();
-  auto const *dom2 = that.dom ();
+  // Each constant is ordered first by a key that only depends on the
+  // constant itself, then by value.  All arithmetic domains share one
+  // key, so that they compare by value.  Other domains are represented
+  // by their most enclosing domain, so that e.g. STT_FUNC compares
+  // equal across architectures.  A comparison built this way is a
+  // strict weak ordering.
+  auto key = [] (constant const &c) -> constant_dom const *
+    {
+      auto const *d = c.dom ();
+      if (d == nullptr)
+	return nullptr;
+      if (d->safe_arith ())
+	return &dec_constant_dom;
+      return d->most_enclosing (c.value ());
+    };
 
-  auto compare_magnitudes = [&] ()
-    { return value () < that.value (); };
+  auto const *key1 = key (*this);
+  auto const *key2 = key (that);
 
-  if (dom1 == dom2)
-    // Both domains are the same.  Possibly both are nullptr.
-    return compare_magnitudes ();
-  if (dom1 == nullptr && dom2 != nullptr)
-    return true;
-  if (dom1 != nullptr && dom2 == nullptr)
-    return false;
+  if (key1 != key2)
+    return std::less <constant_dom const *> {} (key1, key2);
 
-  if (// If both domains are arithmetic, we can directly compare the
-      // values.
-      (dom1->safe_arith () && dom2->safe_arith ())
-
-      // Maybe we can find a common sub-domain that covers them both.
-      // That has no effect for arithmetic domains, so we don't need
-      // to care if both are arithmetic or only one of them is.
-      || (dom1->most_enclosing (value ())
-	  == dom2->most_enclosing (that.value ())))
-    return compare_magnitudes ();
-
-  // Otherwise order the two constants by their domains.
-  return dom1 < dom2;
+  return value () < that.value ();
 }
 
 bool
